@@ -137,8 +137,13 @@ class QueryJudge:
                     # wrong with caching on, right with caching off: a known cache finding only if the L2 machine,
                     # which transliterates the cache code, returns exactly the implementation's rows (or, where the
                     # machine does not apply, if a cache was observed non-prefix-uniform at a lookup)
+                    # (the machine keys an AND / ElseIf right cache on the right operand's VARIABLES; the implementation also
+                    # keeps the ids of the operand's literals as keys - LogicalOperator.__post_init__ filters literals on
+                    # the HashedValue wrapper - so where a right operand contains a literal the two may hit differently:
+                    # there, inside the finding's scope, an observed non-prefix-uniform cache is what attributes it)
                     reproduced = (m2 is not None and sorted(set(out[1])) == sorted(set(m2))) or \
-                                 (m2 is None and cfg['nonuniform'])
+                                 (m2 is None and cfg['nonuniform']) or \
+                                 (cfg['nonuniform'] and len(case['vars']) > 1 and literal_in_a_right_operand(case))
                     if reproduced and not mentions_flatten(case) and self.known('C05-F1'):
                         self.attributed.add((case['id'], cfg_name))
                         continue
@@ -151,6 +156,40 @@ class QueryJudge:
                                case, expected=want, observed=obs, model=model_obs,
                                cache_nonuniform=cfg['nonuniform'])
                 break
+
+
+def literal_in_a_right_operand(case):
+    """Some and_/or_ node of the condition has a literal inside an operand other than its first one (conditions passed
+    separately to entity()/set_of() are chained by and_)."""
+    case = case.get('explicit', case)
+
+    def has_lit_t(t):
+        if t[0] == 'lit':
+            return True
+        return any(has_lit_t(y) for y in t[1:] if isinstance(y, tuple) and y and isinstance(y[0], str))
+
+    def has_lit(c):
+        k = c[0]
+        if k in ('and', 'or', 'not', 'sub'):
+            return any(has_lit(y) for y in c[1:] if isinstance(y, tuple) and y and isinstance(y[0], str) and y[0] != 'var') or \
+                any(has_lit_t(t) for t in (c[1] if k == 'sub' else ()))
+        return any(has_lit_t(t) for t in c[1:] if isinstance(t, tuple) and t and isinstance(t[0], str))
+
+    def walk(c):
+        k = c[0]
+        if k in ('and', 'or'):
+            if any(has_lit(y) for y in c[2:]):
+                return True
+            return any(walk(y) for y in c[1:])
+        if k == 'not':
+            return walk(c[1])
+        if k == 'sub':
+            return walk(('and',) + tuple(c[2:])) if len(c) > 3 else any(walk(y) for y in c[2:])
+        return False
+    conds = list(case.get('cond') or [])
+    if len(conds) > 1 and any(has_lit(y) for y in conds[1:]):
+        return True
+    return any(walk(c) for c in conds)
 
 
 def mentions_flatten(case):
